@@ -66,6 +66,21 @@ def gen(rng, t):
         fun = lambda x, *a: A @ x - b
     x0 = rng.normal(size=n) * rng.choice([0.1, 1.0, 3.0])
     kw, d = {}, {'n': n, 'm': m, 'residual': kind, 'A': A, 'b': b, 'scenario': t}
+    if t < 8:
+        # plain scenarios first: default options, linear residuals, (no bounds | box | box with scaling) x (interpolation | regression), a budget that lets the run finish
+        fun = lambda x, *a: A @ x - b
+        d['residual'] = 'lin'
+        c = ['none', 'box', 'box_scaled', 'box_scaled'][t % 4]
+        if c != 'none':
+            kw['bounds'] = (x0 - rng.uniform(0.5, 6.0, size=n), x0 + rng.uniform(0.5, 6.0, size=n))
+            kw['rhobeg'] = 0.1
+        if c == 'box_scaled':
+            kw['scaling_within_bounds'] = True
+            kw['rhobeg'] = 0.02
+        kw['npt'] = n + 1 if t < 4 else 2 * n + 1
+        kw['maxfun'] = 150
+        d.update(constraint=c, mode='det', fault='none', regulariser=None)
+        return d, Rec(fun, seed=t), x0, kw
     # ---- constraints
     c = rng.choice(['none', 'none', 'box', 'box_face', 'box_infeasible', 'box_scaled', 'proj'])
     rhobeg = float(rng.choice([0.05, 0.1, 0.5, 1.0]))
@@ -262,7 +277,8 @@ for t in range(NSC):
             growing = 'growing.ndirs_initial' in kw.get('user_params', {})       # not "a fully initialised point set": unfilled rows carry evaluation number 0
             if np.any(nums < (0 if growing else 1)) or np.any(nums > len(rec.calls)):
                 fail(d, x0_copy, kw, 'jacmin_eval_nums %r are not evaluation numbers (nf=%d)' % (nums.tolist(), len(rec.calls)))
-            if d['residual'] == 'lin' and h is None and 'projections' not in kw and s.flag in (s.EXIT_SUCCESS,) and len(nums) >= d['n'] + 1 and not growing \
+            if d['residual'] == 'lin' and h is None and 'projections' not in kw and s.flag in (s.EXIT_SUCCESS, s.EXIT_MAXFUN_WARNING) and len(nums) >= d['n'] + 1 and not growing \
+                    and not kw.get('user_params', {}).get('interpolation.precondition') is False \
                     and not np.allclose(s.jacobian, d['A'], rtol=1e-4, atol=1e-4 * (1 + np.abs(d['A']).max())):
                 fail(d, x0_copy, kw, 'linear residuals but the returned Jacobian differs from A by %.3g' % np.abs(s.jacobian - d['A']).max())
     if PID in ('C04', 'C08') and not kw.get('objfun_has_noise') and nsamp is None:
